@@ -22,12 +22,16 @@ import lib
 
 BUDGET = 150
 MODEL_FUEL = {"run_default": 1200, "run_inline": 300}
-SOURCES = ("from_iterable", "range", "generate", "repeat_value", "repeat")
+# range_step = rx.range(0, huge, 3): the three-argument branch of observable/range.py (elements 0, 3, 6, ...)
+SOURCES = ("from_iterable", "range", "generate", "repeat_value", "repeat", "range_step")
 KIND = {"from_iterable": "KIter", "range": "KStep", "generate": "KStep",
-        "repeat_value": "(KRep [7])", "repeat": "(KRep [1; 2])"}
+        "repeat_value": "(KRep [7])", "repeat": "(KRep [1; 2])", "range_step": "KStep"}
+ELEMS = {"range_step": "(fun i => Z.of_nat (3 * i))"}          # default: (fun i => Z.of_nat i)
+SIG_KIND = {"range_step": "range"}                              # same producer: one finding signature
+TAKES_SCHEDULER = ("from_iterable", "range", "range_step")       # factories with a scheduler parameter
 # scheduler kinds: how the pipeline is subscribed / the source is created
-MODES = ("default", "singleton", "immediate-sub", "immediate-src", "fresh-sub", "fresh-src")
-MODE_CLASS = {"default": "current-thread", "singleton": "current-thread",
+MODES = ("default", "singleton", "singleton-src", "immediate-sub", "immediate-src", "fresh-sub", "fresh-src")
+MODE_CLASS = {"default": "current-thread", "singleton": "current-thread", "singleton-src": "current-thread",
               "immediate-sub": "immediate", "immediate-src": "immediate",
               "fresh-sub": "fresh-current-thread", "fresh-src": "fresh-current-thread"}
 
@@ -71,6 +75,8 @@ def make_source(kind, ctr, src_sched):
         return rx.from_iterable(Inf(ctr), **kw)
     if kind == "range":
         return rx.range(0, 10 ** 12, **kw).pipe(ops.do_action(ctr.tick))
+    if kind == "range_step":
+        return rx.range(0, 10 ** 12, 3, **kw).pipe(ops.do_action(ctr.tick))
     if kind == "generate":
         return rx.generate(0, lambda s: True, lambda s: s + 1).pipe(ops.do_action(ctr.tick))
     if kind == "repeat_value":
@@ -134,6 +140,7 @@ def scheds(mode):
     from reactivex.scheduler import CurrentThreadScheduler, ImmediateScheduler
     return {"default": (None, None),
             "singleton": (None, CurrentThreadScheduler.singleton()),
+            "singleton-src": (CurrentThreadScheduler.singleton(), None),
             "immediate-sub": (None, ImmediateScheduler()),
             "immediate-src": (ImmediateScheduler(), None),
             "fresh-sub": (None, CurrentThreadScheduler()),
@@ -142,9 +149,13 @@ def scheds(mode):
 
 def run_impl(kind, mode, shape, n, timeout=2.0):
     """-> dict(outcome 'returned'|'exceeded'|'timeout', pulls, out, done, later_pulls, idle, error)"""
+    return run_built(kind, mode, shapes()[shape][0], n, timeout)
+
+
+def run_built(kind, mode, build, n, timeout=2.0):
+    """build(source, n) -> the pipeline; same result as run_impl"""
     import reactivex as rx
     from reactivex.scheduler import CurrentThreadScheduler
-    build = shapes()[shape][0]
     ctr = Counter()
     got = {"out": 0, "done": False, "err": None}
 
@@ -215,10 +226,200 @@ def run_resub(kind, shape, n, timeout=2.0):
     return outs, min(ctr.n, BUDGET + 1)
 
 
+# ---- oracle-only family: every early-terminating consumer behind every pipeline shape -------------------------
+# No model: the judgement is the property text itself -- subscribe() returns within the budget, the trampoline is
+# idle afterwards and a later drain pulls nothing.  Predicates count their calls (value independent: behind
+# with_latest_from / combine_latest the elements are tuples).
+def value_at(kind, i):
+    """the i-th element of the never-ending source"""
+    return {"repeat_value": 7, "repeat": (1, 2)[i % 2], "range_step": 3 * i}.get(kind, i)
+
+
+def nets():
+    """shape without its final consumer: name -> builder(source)"""
+    import reactivex as rx
+    from reactivex import operators as ops
+    return {
+        "linear": lambda s: s,
+        "map_filter": lambda s: s.pipe(ops.map(lambda x: x + 1), ops.filter(lambda x: x != 3)),
+        "share": lambda s: s.pipe(ops.share()),
+        "merge(source,never)": lambda s: rx.merge(s, rx.never()),
+        "merge(never,source)": lambda s: rx.merge(rx.never(), s),
+        "ops.merge(never)": lambda s: s.pipe(ops.merge(rx.never())),
+        "flat_map(of)": lambda s: s.pipe(ops.flat_map(lambda x: rx.of(x))),
+        "switch_map(of)": lambda s: s.pipe(ops.switch_map(lambda x: rx.of(x))),
+        "of.flat_map(source)": lambda s: rx.of(1).pipe(ops.flat_map(lambda _: s)),
+        "of.switch_map(source)": lambda s: rx.of(1).pipe(ops.switch_map(lambda _: s)),
+        "of.map(source).merge(max_concurrent=1)": lambda s: rx.of(1).pipe(ops.map(lambda _: s),
+                                                                          ops.merge(max_concurrent=1)),
+        "concat(of,source)": lambda s: rx.concat(rx.of(1, 2), s),
+        "concat(source,of)": lambda s: rx.concat(s, rx.of(1, 2)),
+        "ops.concat(of)": lambda s: s.pipe(ops.concat(rx.of(1, 2))),
+        "amb(source,never)": lambda s: rx.amb(s, rx.never()),
+        "amb(never,source)": lambda s: rx.amb(rx.never(), s),
+        "with_latest_from(of)": lambda s: s.pipe(ops.with_latest_from(rx.of(9))),
+        "of.with_latest_from(source)": lambda s: rx.of(1).pipe(ops.with_latest_from(s)),
+        "combine_latest(source,of)": lambda s: rx.combine_latest(s, rx.of(9)),
+        "combine_latest(of,source)": lambda s: rx.combine_latest(rx.of(9), s),
+    }
+
+
+# the five structural from_iterable starvations of the catalogue, keyed by the part of the pipeline that causes them
+STRUCTURAL_NETS = {"flat_map(of)": "flat_map(of)_take", "switch_map(of)": "switch_map(of)_take",
+                   "of.with_latest_from(source)": "of.with_latest_from(source)_take",
+                   "combine_latest(source,of)": "combine_latest(source,of)_take"}
+STRUCTURAL_CONSUMER = "take_until(of)"
+# ... behind these shapes the source is subscribed from a trampolined action of its own (merge / concat iterate
+# their sources on the scheduler, of(1).flat_map runs its mapper from of's action), i.e. AFTER take_until's of(1)
+# has been queued: take_until(of(1)) does stop a never-ending from_iterable there and must keep doing so
+TAKE_UNTIL_NOT_STRUCTURAL = ("concat(of,source)", "concat(source,of)", "ops.concat(of)", "merge(source,never)",
+                             "merge(never,source)", "ops.merge(never)", "of.flat_map(source)",
+                             "of.switch_map(source)", "of.map(source).merge(max_concurrent=1)")
+LISTED_CONSUMERS = ("take", "first", "take_while", "element_at", "take_until(of)")
+
+
+def consumers():
+    """name -> (builder(k, kind) -> operator, values of k).  k-th call / k-th element counted from 0."""
+    import reactivex as rx
+    from reactivex import operators as ops
+
+    def true_from(k):            # predicate: False for the first k calls, then True
+        c = [0]
+
+        def pred(*_):
+            c[0] += 1
+            return c[0] > k
+        return pred
+
+    def true_until(k):           # predicate: True for the first k calls, then False
+        c = [0]
+
+        def pred(*_):
+            c[0] += 1
+            return c[0] <= k
+        return pred
+
+    return {
+        "take": (lambda k, kind: ops.take(k), (1, 2, 5)),
+        "first": (lambda k, kind: ops.first(), (0,)),
+        "take_while": (lambda k, kind: ops.take_while(true_until(k)), (0, 1, 3)),
+        "element_at": (lambda k, kind: ops.element_at(k), (0, 1, 4)),
+        "take_until(of)": (lambda k, kind: ops.take_until(rx.of(1)), (0,)),
+        # "... and similar"
+        "take(0)": (lambda k, kind: ops.take(0), (0,)),
+        "first(predicate)": (lambda k, kind: ops.first(true_from(k)), (0, 2)),
+        "first_or_default(predicate)": (lambda k, kind: ops.first_or_default(true_from(k), "dflt"), (0, 2)),
+        "first_or_default()": (lambda k, kind: ops.first_or_default(), (0,)),
+        "take_while(inclusive)": (lambda k, kind: ops.take_while(true_until(k), inclusive=True), (0, 2)),
+        "take_while_indexed": (lambda k, kind: ops.take_while_indexed(lambda x, i: i < k), (0, 1, 3)),
+        "find": (lambda k, kind: ops.find(lambda x, i, src: i >= k), (0, 2)),
+        "find_index": (lambda k, kind: ops.find_index(lambda x, i, src: i >= k), (0, 2)),
+        "some(predicate)": (lambda k, kind: ops.some(true_from(k)), (0, 2)),
+        "some()": (lambda k, kind: ops.some(), (0,)),
+        "contains": (lambda k, kind: ops.contains("sought", comparer=true_from(k)), (0, 2)),
+        "contains(value)": (lambda k, kind: ops.contains(value_at(kind, k)), (0, 2)),     # linear shapes only
+        "is_empty": (lambda k, kind: ops.is_empty(), (0,)),
+        "all": (lambda k, kind: ops.all(true_until(k)), (0, 2)),
+    }
+
+
+VALUE_NETS = ("linear", "share", "merge(source,never)", "merge(never,source)", "ops.merge(never)",
+              "amb(source,never)", "amb(never,source)", "of.flat_map(source)", "of.switch_map(source)",
+              "of.map(source).merge(max_concurrent=1)", "concat(source,of)", "ops.concat(of)")     # shapes whose elements are the source's own, from the start
+CROSS_MODES = ("default", "singleton", "singleton-src", "immediate-sub", "fresh-src")
+
+
+def cross_signature(kind, mode, net, consumer):
+    cls = MODE_CLASS[mode]
+    k = SIG_KIND.get(kind, kind)
+    if cls != "current-thread":
+        return f"C14|{k}|{cls}|*"
+    if kind == "from_iterable" and consumer != "take(0)":
+        if net in STRUCTURAL_NETS:
+            return f"C14|from_iterable|current-thread|{STRUCTURAL_NETS[net]}"
+        if consumer == STRUCTURAL_CONSUMER and net not in TAKE_UNTIL_NOT_STRUCTURAL:
+            return f"C14|from_iterable|current-thread|{STRUCTURAL_CONSUMER}"
+    return f"C14|cross|{k}|{net}|{consumer}"
+
+
+def run_cross(kind, mode, net, consumer, k):
+    build_net = nets()[net]
+    make = consumers()[consumer][0]
+    return run_built(kind, mode, lambda s, n: build_net(s).pipe(make(n, kind)), k)
+
+
+def judge(r):
+    if r["outcome"] != "returned":
+        return f"subscribe() did not return within {BUDGET} pulls ({r['outcome']})"
+    if r.get("later_pulls"):
+        return f"the source produced {r['later_pulls']} more element(s) after subscribe() returned"
+    if r.get("idle") is False:
+        return "the trampoline was still busy after subscribe() returned"
+    if r.get("error"):
+        return f"an exception escaped subscribe(): {r['error']}"
+    return None
+
+
+def cross_catalogue(rng, tier):
+    """(kind, mode, net, consumer, k): default scheduler -- every (kind, net, consumer), quick: one seeded parameter
+    value each, thorough: all of them; the other scheduler kinds: a seeded sample (quick) / everything (thorough)"""
+    out = []
+    cons = consumers()
+    for kind in SOURCES:
+        for net in nets():
+            for c, (_, ks) in cons.items():
+                if c == "contains(value)" and net not in VALUE_NETS:
+                    continue
+                for mode in CROSS_MODES:
+                    if mode.endswith("-src") and kind not in TAKES_SCHEDULER:
+                        continue
+                    if tier == "quick":
+                        if MODE_CLASS[mode] != "current-thread" and rng.random() >= 0.02:
+                            continue
+                        out.append((kind, mode, net, c, rng.choice(ks)))
+                    else:
+                        out.extend((kind, mode, net, c, k) for k in ks)
+    return out
+
+
+def cross_scenarios(chk, tier):
+    cases = cross_catalogue(chk.rng, tier)
+    hist = {"consumer": {}, "net": {}, "mode": {}, "outcome": {}}
+    nontrivial = set()
+    fails = []
+    for (kind, mode, net, c, k) in cases:
+        r = run_cross(kind, mode, net, c, k)
+        chk.cov["evaluations"] += 1
+        for a, b in (("consumer", c), ("net", net), ("mode", mode), ("outcome", r["outcome"])):
+            hist[a][b] = hist[a].get(b, 0) + 1
+        bad = judge(r)
+        if bad:
+            fails.append((k, cross_signature(kind, mode, net, c),
+                          {"family": "cross", "source": kind, "mode": mode, "net": net, "consumer": c, "k": k,
+                           "observed": r, "what_failed": bad,
+                           "pipeline": f"{net}[source = {kind}] . {c}  (k = {k}: the consumer's count parameter)",
+                           "expected": "C14: subscribe() returns after a bounded amount of work and the source "
+                                       "stops producing"}))
+        elif r["pulls"] >= 1:
+            nontrivial.add((kind, mode, net, c, k))
+    fails.sort(key=lambda f: f[0])
+    seen = set()
+    for size, sig, rep in fails:
+        if sig not in seen:
+            seen.add(sig)
+            chk.violation(sig, rep, size=size)
+    hist["cases"] = len(cases)
+    hist["listed_consumer_x_multi_source_shape"] = sum(
+        1 for (_, _, net, c, _) in cases if c in LISTED_CONSUMERS and c != "take" and net not in ("linear", "map_filter", "share"))
+    hist["similar_consumers"] = sum(1 for (_, _, _, c, _) in cases if c not in LISTED_CONSUMERS)
+    return nontrivial, hist, cases
+
+
 def gallina_case(kind, mode, shape, n):
     sh = shapes()[shape]
     run = "run_default" if MODE_CLASS[mode] == "current-thread" else "run_inline"
-    return f"({run} (fun i => Z.of_nat i) {KIND[kind]} {sh[1]} {sh[2](n)} {MODEL_FUEL[run]}%nat)"
+    return (f"({run} {ELEMS.get(kind, '(fun i => Z.of_nat i)')} {KIND[kind]} {sh[1]} {sh[2](n)} "
+            f"{MODEL_FUEL[run]}%nat)")
 
 
 def gallina_outcome(r):
@@ -243,13 +444,16 @@ def catalogue(tier):
     out = []
     for kind in SOURCES:
         for mode in MODES:
-            if mode.endswith("-src") and kind not in ("from_iterable", "range"):
+            if mode.endswith("-src") and kind not in TAKES_SCHEDULER:
                 continue          # only these factories take a scheduler
+            if kind == "range_step" and tier == "quick" and mode not in ("default", "singleton-src"):
+                continue          # same producer code as range: the other scheduler kinds in the thorough tier
             for shape, sh in shapes().items():
                 params = sh[3]
                 if kind in ("repeat_value", "repeat") and shape.startswith("take_while"):
                     params = (1, 2)
-                if MODE_CLASS[mode] != "current-thread" and tier == "quick":
+                if tier == "quick" and (MODE_CLASS[mode] != "current-thread" or mode == "singleton-src"
+                                        or kind == "range_step"):
                     params = params[-1:]
                 for n in params:
                     out.append((kind, mode, shape, n))
@@ -258,7 +462,7 @@ def catalogue(tier):
 
 def signature(kind, mode, shape):
     cls = MODE_CLASS[mode]
-    return f"C14|{kind}|{cls}|{shape if cls == 'current-thread' else '*'}"
+    return f"C14|{SIG_KIND.get(kind, kind)}|{cls}|{shape if cls == 'current-thread' else '*'}"
 
 
 def run(chk):
@@ -311,6 +515,13 @@ def run(chk):
                            "what": "the first subscription of the pipeline returned, a second subscription of the "
                                    f"same pipeline object did not return within {BUDGET} pulls"}, size=n + 1)
     hist["resubscription_cases"] = resub
+    # oracle only: every early-terminating consumer (the listed ones and the similar ones) behind every shape
+    cross_nt, cross_hist, cross_cases = cross_scenarios(chk, tier)
+    hist["cross"] = cross_hist
+    chk.cov["cross_scenarios"] = {"cases": len(cross_cases), "distinct_nontrivial": len(cross_nt),
+                                  "listed_consumer_x_multi_source_shape": cross_hist["listed_consumer_x_multi_source_shape"],
+                                  "similar_consumers": cross_hist["similar_consumers"],
+                                  "consumers": sorted(cross_hist["consumer"]), "nets": sorted(cross_hist["net"])}
     bad, logs = lib.correspondence("C14", "corr", IMPORTS, "outcome * outcome", "model", "out_eqb", gal,
                                    shard=60, prelude=PRELUDE)
     chk.cov["traces_validated_against_impl"] = len(gal)
@@ -323,13 +534,26 @@ def run(chk):
             detail["model_says"] = [lib.coq_show("C14", IMPORTS, gal[i][0], PRELUDE) for i in firsts[:2]]
         chk.tie_broken("correspondence: Core/SyncSources.v vs the real pipelines (pulls, elements delivered, "
                        "completion, budget)", detail)
-    chk.cov["distinct_nontrivial"] = len(nontrivial)
-    chk.cov["rule"] = ("the whole catalogue: 5 source kinds x 6 scheduler kinds (default, explicit current-thread "
-                       "singleton, ImmediateScheduler / fresh CurrentThreadScheduler() given to subscribe or to the "
+    chk.cov["distinct_nontrivial"] = len(nontrivial) + len(cross_nt)
+    chk.cov["rule"] = ("the whole catalogue: 6 source kinds (range also with a step: range(0, huge, 3)) x 7 scheduler "
+                       "kinds (default, explicit current-thread singleton given to subscribe or to the source factory, "
+                       "ImmediateScheduler / fresh CurrentThreadScheduler() given to subscribe or to the "
                        "source factory) x 22 shapes x parameter values (quick: one parameter value for the "
-                       f"non-trampolined scheduler kinds); budget {BUDGET} pulls.  non-trivial = subscribe() returned "
+                       "non-trampolined scheduler kinds, for the factory-singleton kind and for range with a step, "
+                       f"which then runs under two scheduler kinds only); budget {BUDGET} pulls.  non-trivial = "
+                       "subscribe() returned "
                        "after pulling at least one element; oracle-only: every default-scheduler catalogue entry is also "
-                       "subscribed a second time through the same pipeline object")
+                       "subscribed a second time through the same pipeline object; oracle-only family cross_scenarios: "
+                       "every consumer (take, first, take_while, element_at, take_until(of) and the similar ones "
+                       "take(0), first(predicate), first_or_default, take_while inclusive / indexed, find, find_index, "
+                       "some, contains, is_empty, all; call-counting predicates) behind every shape without its "
+                       "consumer (20 nets incl. ops.merge / ops.concat / merge(max_concurrent=1)) over every source kind "
+                       "under the three current-thread scheduler kinds (quick: one seeded count parameter; plus a 2% "
+                       "sample under an inline scheduler), judged by the property text only: returned within the "
+                       "budget, trampoline idle, no later pulls; a failure is attributed to a recorded structural "
+                       "finding only if the pipeline contains the very part that causes it (from_iterable behind "
+                       "flat_map(of) / switch_map(of) / of.with_latest_from / combine_latest(source,of), or "
+                       "take_until(of(1)) behind a shape that subscribes the source synchronously)")
     chk.cov["input_distribution"] = hist
     chk.add_samples([{"source": c[0], "mode": c[1], "shape": c[2], "n": c[3]} for c in cases[::max(1, len(cases) // 6)]])
     return chk.finish(
@@ -338,18 +562,31 @@ def run(chk):
                        "correspondence on every catalogue entry, not extracted",
                        "instrumentation: a counting never-ending iterator for from_iterable, do_action(counter) right "
                        "after range/generate/repeat_value/repeat"],
-        assumptions=["elements of from_iterable/range/generate are 0,1,2,...; repeat_value(7); repeat of of(1,2)",
+        assumptions=["elements of from_iterable/range/generate are 0,1,2,... (range with a step: 0,3,6,...); "
+                     "repeat_value(7); repeat of of(1,2)",
                      "the other sources of a multi-source shape are never(), of(9), of(1), of(1,2), of(x)",
                      "for ImmediateScheduler / fresh CurrentThreadScheduler() only the outcome (budget exceeded) is "
-                     "compared with the model"])
+                     "compared with the model",
+                     "cross_scenarios has no model: its predicates count their calls, so 'terminates at the k-th "
+                     "element' does not depend on the element values"])
 
 
 def replay(chk, path):
     d = json.load(open(path))
-    if "shape" not in d:
+    if "shape" not in d and d.get("family") != "cross":
         print(json.dumps(d, indent=1))
         return 1
     sys.setrecursionlimit(100000)
+    if d.get("family") == "cross":
+        r = run_cross(d["source"], d["mode"], d["net"], d["consumer"], d["k"])
+        print("cross case", d["pipeline"], "mode", d["mode"])
+        print("observed", r)
+        bad = judge(r)
+        if bad:
+            print("FAILS", bad)
+            print(f"VIOLATION property=C14 replay={path}")
+            return 1
+        return 0
     if d.get("resubscription"):
         outs, pulls = run_resub(d["source"], d["shape"], d["n"])
         print("resubscription case", d["source"], d["shape"], d["n"], "->", outs, pulls)
@@ -363,4 +600,5 @@ def replay(chk, path):
     bad = r["outcome"] != "returned" or r.get("later_pulls") or r.get("idle") is False
     if bad:
         print("FAILS", d.get("what_failed"))
+        print(f"VIOLATION property=C14 replay={path}")
     return 1 if bad else 0
